@@ -3,7 +3,8 @@ import copy
 import checklib
 from checklib import Prop
 from formats import treeinfo as TF
-from props.c04 import PROP as C04PROP
+from props.c04 import PROP as C04PROP, no_parent
+from formats import treeinfo_compat as TC
 
 
 class C17(Prop):
@@ -15,9 +16,24 @@ class C17(Prop):
             "src trees with only source paths, integer and float timestamps, >= 2 top-level variants without main variant): the real "
             "dumps() is parsed by an independent minimal INI reader (not configparser) and its [general] section is compared with "
             "(a) the property evaluated on the same file's [release]/[tree]/[variant-*] sections, (b) the property evaluated on the "
-            "input, (c) the model document; non-trivial = distinct inputs the library agreed to write")
-    assumptions = ["int(x) of a float timestamp is evaluated by CPython and carried in the float token (floats are never computed in Lean)"]
-    partial = {}
+            "input, (c) the model document; op `legacy`: the written text is cut down to [general]/[stage2]/[checksums]/[images-*] by an "
+            "independent line filter and loaded by the library's no-header (0.0) reader - compared with the model reader on compatDoc of "
+            "the model text (and with legacyTree where the side conditions hold) and with what 'the same tree' requires, component by "
+            "component (formats/treeinfo_compat.py: family table, milestone versions, RHEL 5 Server/Client, kept-section arches, legacy "
+            "path shapes, absolute instimage, float timestamps below 1, integers beyond 2^53, dashed main variants); "
+            "non-trivial = distinct inputs the library agreed to write")
+    assumptions = ["int(x) of a float timestamp is evaluated by CPython and carried in the float token (floats are never computed in Lean)",
+                   "C17_legacy_reader_partial: int(float(s)) of the written [general] timestamp is answered by CPython (hypothesis hfl; = the "
+                   "integer itself up to 2^53); the stand-in for 'a pre-productmd reader' is the library's own no-header (0.0) reader"]
+    partial = {
+        "C17_legacy_reader_partial": "the last sentence of the property holds with side conditions (all decidable, necessity of the three substantial "
+                                     "ones decided and replayed on the real code): [general] variant without a dash (F46), int(build_timestamp) != 0 "
+                                     "(F45, inside the validity hypothesis) and exactly representable as a double (F17), tree arch not named like a "
+                                     "kept section, RHEL 5 addon table not applicable, instimage not absolute; what the reader then builds is "
+                                     "legacyTree - 'the same tree' up to the 0.0 reader's family table / milestone rule / platform list "
+                                     "(C17_legacy_same, C17_legacy_paths)",
+        "C17_legacy_reader_doc_partial": "as C17_legacy_reader_partial, on the written document instead of the bytes",
+    }
 
     def cases(self, rng, tier, budget):
         # every named class of the audit, round-robin (docs/audit_C17.md), integer and float timestamps alternating,
@@ -35,6 +51,12 @@ class C17(Prop):
                     mv = sorted(keys)[-1]
                 n_cls += 1
                 yield {"op": "general", "args": {"spec": spec, "main_variant": mv, "cls": cls}}
+        # every architecture class (src, nosrc, noarch, binary) x every presence combination of packages / repository /
+        # source_packages / source_repository on the main variant: the fallback of packagedir / repository is for `src` only
+        for i in range(128 if tier == "quick" else 1280):
+            spec, mv, label = TF.gen_arch_paths(rng, tier, i)
+            n_cls += 1
+            yield {"op": "general", "args": {"spec": spec, "main_variant": mv, "cls": "arch-x-paths", "combo": label}}
         for i in range(max(0, budget - n_cls)):
             spec, mv = TF.gen(rng, tier, float_ts=(rng.random() < 0.35), dashed_by_id=0.3)
             keys = [v["key"] for v in spec["variants"]]
@@ -53,8 +75,41 @@ class C17(Prop):
             else:
                 mv = rng.choice(["Nope", "", "Server-missing"])
             yield {"op": "general", "args": {"spec": spec, "main_variant": mv}}
+        # the last sentence of the property: the library's no-header (0.0) reader on the compatibility sections of the written text
+        for c in self.legacy_cases(rng, tier):
+            yield c
+
+    def legacy_cases(self, rng, tier):
+        import random
+        # the two decided witnesses of Properties/C17.lean, replayed on the real code (known findings F45 / F46)
+        for spec, mv in self.witnesses():
+            yield {"op": "legacy", "args": {"spec": spec, "main_variant": mv, "cls": "witness"}}
+        r2 = random.Random(rng.getrandbits(64))
+        for i in range(330 if tier == "quick" else 8000):
+            spec, mv, cls = TC.gen(r2, tier, i)
+            yield {"op": "legacy", "args": {"spec": spec, "main_variant": mv, "cls": cls}}
+
+    @staticmethod
+    def witnesses():
+        v = lambda vid, uid, typ, paths, kids: {"key": uid if typ != "addon" else vid, "id": vid, "uid": uid, "name": vid, "type": typ,
+                                                "paths": paths, "variants": kids}
+        base = {"header_version": "0.0", "release": {"name": "Foo", "short": "F", "version": "1.0"}, "is_layered": False,
+                "base_product": None, "checksums": [], "images": [], "stage2": {"mainimage": None, "instimage": None},
+                "media": {"discnum": None, "totaldiscs": None}}
+        zero = dict(base, tree={"arch": "x86_64", "build_timestamp": TF.ts_spec(0.5), "platforms": []},
+                    variants=[v("Server", "Server", "variant", [["packages", "Packages"], ["repository", "repo"]], [])])
+        dashed = dict(base, release={"name": "Foo", "short": "F", "version": "21"},
+                      tree={"arch": "x86_64", "build_timestamp": 1417653911, "platforms": ["xen"]},
+                      variants=[v("Server", "Server", "variant", [["packages", "Packages"], ["repository", "repo"]],
+                                  [dict(v("HA", "Server-HA", "addon", [], []), key="HA")]),
+                                v("Client", "Client", "variant", [["packages", "Client/Packages"], ["repository", "Client"]], [])],
+                      checksums=[["images/boot.iso", "sha256", "00"]], images=[["xen", [["kernel", "images/xen/vmlinuz"]]]],
+                      stage2={"mainimage": "images/install.img", "instimage": None}, media={"discnum": 1, "totaldiscs": 2})
+        return [(zero, None), (dashed, "Server-HA"), (dashed, None)]
 
     def real(self, case):
+        if case["op"] == "legacy":
+            return self.real_legacy(case)
         a = case["args"]
         try:
             ti = TF.build(a["spec"])
@@ -65,8 +120,33 @@ class C17(Prop):
             out["doc"] = TF.guarded(TF.read_ini, out["dump"]["ok"])
         return out
 
+    def real_legacy(self, case):
+        a = case["args"]
+        try:
+            ti = TF.build(a["spec"])
+        except Exception as e:  # noqa
+            return {"build": {"err": TF.err_name(e)}}
+        out = {"dump": TF.guarded(TF.dumps, ti, a.get("main_variant"))}
+        if "ok" in out["dump"]:
+            out["compat_text"] = TC.compat_text(out["dump"]["ok"])
+            out["legacy"] = TF.guarded(lambda: no_parent(TF.snap(TF.loads(out["compat_text"]))))
+        return out
+
+    @staticmethod
+    def legacy_floats(spec):
+        fl = TF.floats_for(spec)
+        try:
+            s = str(int(TF.ts_value(spec["tree"]["build_timestamp"])))
+            fl[s] = TF.float_entry(s)
+        except Exception:  # noqa
+            pass
+        return fl
+
     def model_requests(self, case):
         a = case["args"]
+        if case["op"] == "legacy":
+            return [{"op": "ti_legacy_compat", "args": {"spec": TF.model_tree_spec(a["spec"]), "main_variant": a.get("main_variant"),
+                                                        "floats": self.legacy_floats(a["spec"])}}]
         return [{"op": "ti_dumps", "args": {"spec": TF.model_tree_spec(a["spec"]), "main_variant": a.get("main_variant")}}]
 
     def model_result(self, case, outs):
@@ -76,9 +156,65 @@ class C17(Prop):
     def general_of(doc):
         return dict((k, v) for k, v in doc.get("general", {}).items() if not k.startswith("; WARNING"))
 
+    def compare_legacy(self, case, real_out, model_out):
+        rd, md = real_out["dump"], model_out.get("dump") or {}
+        if "ok" not in rd or "ok" not in md:
+            r = rd if "ok" not in rd else "ok"
+            m = md if "ok" not in md else "ok"
+            return None if r == m else {"real": {"dump": r}, "model": {"dump": m}}
+        r, m = {}, {}
+        # the restriction itself: the independent line filter against `compatDoc` of the parsed model text
+        if "compat_doc" in model_out:
+            try:
+                r["compat sections"] = sorted((s_, sorted(o.items())) for s_, o in TF.read_ini(real_out["compat_text"]).items())
+                # the INI reader drops comment lines and the blanks around a value (`name = Foo ` for an empty version)
+                r["compat sections"] = [[s_, [[k, v_.strip()] for k, v_ in o if not k.startswith(("#", ";"))]] for s_, o in r["compat sections"]]
+            except ValueError as e:
+                r["compat sections"] = "unreadable: %s" % e
+            m["compat sections"] = sorted([s_, sorted([list(kv) for kv in o])] for s_, o in model_out["compat_doc"])
+        rl, ml = real_out["legacy"], model_out.get("legacy") or model_out.get("parse") or {}
+        r["legacy"] = rl
+        m["legacy"] = {"ok": TF.canon_spec(ml["ok"], with_parent=False)} if "ok" in ml else ml
+        # the closed form of the theorem next to the reader model (executable pieces of C17_legacy_reader_partial)
+        side = model_out.get("side")
+        if side and all(side.values()) and "ok" in ml:
+            r["theorem: reader model = legacyTree under the side conditions"] = True
+            m["theorem: reader model = legacyTree under the side conditions"] = (ml["ok"] == model_out.get("predicted"))
+        if checklib.canon(r) != checklib.canon(m):
+            keys = [k for k in r if checklib.canon(r.get(k)) != checklib.canon(m.get(k))]
+            return {"real": dict((k, r.get(k)) for k in keys), "model": dict((k, m.get(k)) for k in keys)}
+        return None
+
+    def oracle_legacy(self, case, real_out):
+        if "build" in real_out or "ok" not in real_out.get("dump", {}):
+            return None
+        a = case["args"]
+        try:
+            must_load, want = TC.expect(a["spec"], a.get("main_variant"))
+            f = TC.facts(a["spec"], a.get("main_variant"))
+        except (KeyError, IndexError):
+            return {"observed": "written", "required": "no such variant: the dump must be refused", "kind": "general-vs-tree"}
+        got = real_out["legacy"]
+        if "ok" not in got:
+            if not must_load:
+                return None
+            return {"observed": dict(f, err=got.get("err")), "kind": "legacy-refused",
+                    "required": "the no-header reader reads the compatibility sections of a written tree"}
+        obs = TC.observe(got["ok"])
+        if "build_timestamp" not in want and obs["build_timestamp"] != f["int_timestamp"]:
+            return {"observed": dict(f, read_timestamp=obs["build_timestamp"]), "kind": "legacy-timestamp-differs",
+                    "required": "the integer build timestamp"}
+        bad = sorted(k for k in want if checklib.canon(obs.get(k)) != checklib.canon(want[k]))
+        if bad:
+            return {"observed": dict(f, **dict((k, obs.get(k)) for k in bad)), "required": dict((k, want[k]) for k in bad),
+                    "kind": "legacy-differs"}
+        return None
+
     def compare(self, case, real_out, model_out):
         if "build" in real_out:
             return None
+        if case["op"] == "legacy":
+            return self.compare_legacy(case, real_out, model_out)
         rd = real_out["dump"]
         if "ok" not in rd or "ok" not in model_out:
             r = rd if "ok" not in rd else "ok"
@@ -93,6 +229,8 @@ class C17(Prop):
         return None
 
     def oracle(self, case, real_out):
+        if case["op"] == "legacy":
+            return self.oracle_legacy(case, real_out)
         if "build" in real_out or "ok" not in real_out.get("dump", {}):
             return None
         a = case["args"]
@@ -136,11 +274,37 @@ class C17(Prop):
 
     def stats(self, case, real_out, dist):
         s, mv = case["args"]["spec"], case["args"].get("main_variant")
+        if case["op"] == "legacy":
+            d = dist.setdefault("legacy", {"cases": 0})
+            d["cases"] += 1
+            cls = case["args"].get("cls") or "?"
+            dist.setdefault("legacy_classes", {})[cls] = dist.setdefault("legacy_classes", {}).get(cls, 0) + 1
+            lg = real_out.get("legacy") or {}
+            for k, v in {"written": "ok" in real_out.get("dump", {}), "read": "ok" in lg, "refused_by_reader": "err" in lg}.items():
+                if v:
+                    d[k] = d.get(k, 0) + 1
+            if "ok" in real_out.get("dump", {}):
+                try:
+                    f = TC.facts(s, mv)
+                    for k in ("arch_is_kept_section", "rhel5_table"):
+                        if f[k]:
+                            d[k] = d.get(k, 0) + 1
+                    for k, v in {"family_normalised": f["family"] != s["release"]["name"], "version_cut": f["version"] != s["release"]["version"],
+                                 "absolute_paths": bool(f["absolute_paths"]), "timestamp_zero": f["int_timestamp"] == 0,
+                                 "timestamp_beyond_2^53": not (-2 ** 53 <= f["int_timestamp"] <= 2 ** 53),
+                                 "dashed_general_variant": "-" in f["general_variant"]}.items():
+                        if v:
+                            d[k] = d.get(k, 0) + 1
+                except (KeyError, IndexError):
+                    pass
+            return
         d = dist.setdefault("general", {"cases": 0})
         d["cases"] += 1
         cls = case["args"].get("cls")
         if cls:
             dist.setdefault("classes", {})[cls] = dist.setdefault("classes", {}).get(cls, 0) + 1
+        if case["args"].get("combo") and "ok" in real_out.get("dump", {}):
+            dist.setdefault("arch_x_paths_written", {})[case["args"]["combo"]] = dist.setdefault("arch_x_paths_written", {}).get(case["args"]["combo"], 0) + 1
         feats = {"written": "ok" in real_out.get("dump", {}), "refused": "ok" not in real_out.get("dump", {}),
                  "main_variant_none": mv is None, "main_variant_key": mv is not None and mv in [v["key"] for v in s["variants"]],
                  "src": s["tree"]["arch"] == "src", "float_ts": isinstance(s["tree"]["build_timestamp"], dict),
@@ -156,7 +320,7 @@ class C17(Prop):
         out = []
         for c in C04PROP.shrink_candidates({"op": "tree", "args": case["args"]}):
             c = copy.deepcopy(c)
-            c["op"] = "general"
+            c["op"] = case["op"]
             if case["args"].get("main_variant") is not None and c["args"].get("main_variant") is None:
                 # keep the main variant when it still designates something
                 keep = copy.deepcopy(c)
@@ -174,6 +338,11 @@ MANIFEST = dict(
               "and with the model document",
     text="C17_mirror: for every tree and every main_variant the model writer accepts, each [general] option of the written document "
          "equals the stated function of [release], [tree] and the section of the chosen variant (src fallbacks included); the chosen "
-         "variant is the requested one or the first container key in sorted order.",
+         "variant is the requested one or the first container key in sorted order.  C17_text: the same for the bytes dumps() returns, "
+         "read by the INI reader model.  C17_platforms_include_arch: [tree]/[general] platforms = sorted, duplicate-free list of the "
+         "platforms and the architecture.  C17_main_variant(+_refused), C17_default_main_variant: a requested main variant designates a "
+         "variant (top-level key; UID or dashed child path only for dashed names), an unknown one is refused with KeyError, the default "
+         "is the least container key.  C17_legacy_reader_partial (+C17_legacy_same, C17_legacy_paths, three decided witnesses): the "
+         "library's no-header reader on the compatibility sections of the written bytes yields legacyTree.",
     note="'first top-level variant' is first by container key, which for a dashed UID filed under its id differs from the UID order (F8).",
     ref="7/C17")
